@@ -28,7 +28,7 @@ func init() {
 		Rule: "one run = one generated application shared (bytecode, templates, labels - bytecode slices carry spare capacity filled with a canary) by 2..16 sessions, each with its own engine, state, cache, persister and store handle (memory, or one shared directory on the simulated disk), long-lived and persisted engines mixed; the sessions first run one after another (solo), then as goroutines under the seeded baton scheduler, which parks every task at every seam event and draws the next one to run from the tape (uniform, or biased to switch right after a code fetch); " +
 			"oracles: per-session transcripts equal the solo transcripts, shared tables incl. the canary area unchanged, and - in the -race build, a third of the quick worlds and all thorough worlds - no conflicting access between two session tasks (the hand-off is hidden from the race detector); " +
 			"non-trivial = at least 2 sessions each served >= 2 requests and the schedule switched tasks inside a request; distinct = distinct schedules (task id sequences)",
-		Runs:       map[string]int{"quick": 9000, "thorough": 150000},
+		Runs:       map[string]int{"quick": 9000, "thorough": 300000},
 		MaxSeconds: map[string]int{"quick": 40, "thorough": 900},
 		Run:        runC19,
 		Assumptions: []string{
